@@ -327,14 +327,15 @@ type key struct {
 }
 
 type pendingCall struct {
-	id      int
-	k       int
-	e       uint64
-	reqV    []uint64
-	ver     uint32
-	held    *heldCall
-	done    chan answer
-	nReorgs int // invalidations seen when the call began
+	id        int
+	k         int
+	e         uint64
+	reqV      []uint64
+	ver       uint32
+	held      *heldCall
+	done      chan answer
+	nReorgs   int  // invalidations seen when the call began
+	straddled bool // a stale store had hit this key when the call began
 }
 
 type episode struct {
@@ -344,14 +345,14 @@ type episode struct {
 	pending map[int]*pendingCall
 	intern  map[unsafe.Pointer]int
 	// monitors
-	handed       map[unsafe.Pointer]string // every object ever returned to a caller -> who/what
-	keepAlive    []any
-	mustReorg    map[key]bool   // invalidated by a reorg, not yet fetched afresh
-	mustTrim     map[key]bool   // trimmed, not yet fetched afresh
-	straddle     map[key]bool   // a call in flight across an invalidation of this key has stored since
-	repeated     map[key]map[uint64]bool // validators that some request for the key repeated
-	seen         map[key]bool
-	nAnswers     int
+	handed    map[unsafe.Pointer]string // every object ever returned to a caller -> who/what
+	keepAlive []any
+	mustReorg map[key]bool            // invalidated by a reorg, not yet fetched afresh
+	mustTrim  map[key]bool            // trimmed, not yet fetched afresh
+	straddle  map[key]bool            // a call in flight across an invalidation of this key has stored since
+	repeated  map[key]map[uint64]bool // validators that some request for the key repeated
+	seen      map[key]bool
+	nAnswers  int
 }
 
 func newEpisode(seed, nv uint32, active []uint64) *episode {
@@ -517,7 +518,7 @@ func sameSet(a, b []uint64) bool {
 
 // checkAnswer: the property itself on the implementation's answer. `ver` is the node's version
 // of the epoch when the call began, `call` the node request the call made (nil: none).
-func (ep *episode) checkAnswer(run *hx.Run, who string, k int, e uint64, reqV []uint64, ver uint32, a answer, call *bnCall, begunAfterInvalidation bool) {
+func (ep *episode) checkAnswer(run *hx.Run, who string, k int, e uint64, reqV []uint64, ver uint32, a answer, call *bnCall, begunAfterInvalidation bool, straddled bool) {
 	kk := key{k, e}
 	if a.err != nil {
 		violate(run, "dutiescache:unexpected_error", fmt.Sprintf("%s: %v", who, a.err))
@@ -582,7 +583,7 @@ func (ep *episode) checkAnswer(run *hx.Run, who string, k int, e uint64, reqV []
 			staleAll = false
 		}
 		switch {
-		case (stale || staleAll || (missing && !foreign && gotMd == wantMd)) && ep.straddle[kk] && len(a.meta) == 3:
+		case (stale || staleAll || (missing && !foreign && gotMd == wantMd)) && straddled && len(a.meta) == 3:
 			sig = "dutiescache:stale_inflight_store_across_invalidate"
 		case stale:
 			sig = "dutiescache:stale_after_invalidate"
@@ -610,7 +611,7 @@ func (ep *episode) checkAnswer(run *hx.Run, who string, k int, e uint64, reqV []
 		fresh := call != nil && sameSet(call.indices, reqV)
 		if ep.mustReorg[kk] && !fresh {
 			sig := "dutiescache:not_refetched_after_invalidate"
-			if ep.straddle[kk] {
+			if straddled {
 				sig = "dutiescache:stale_inflight_store_across_invalidate"
 			}
 			violate(run, sig, fmt.Sprintf("%s kind %d epoch %d indices %v served without a full beacon node request after the epoch was invalidated", who, k, e, reqV))
@@ -748,7 +749,7 @@ func (ep *episode) doGet(run *hx.Run, k int, e uint64, idxs []uint64) string {
 			violate(run, "dutiescache:multiple_bn_calls", "one cache call made more than one beacon node request")
 		}
 	}
-	ep.checkAnswer(run, "get", k, e, reqV, ver, a, call, true)
+	ep.checkAnswer(run, "get", k, e, reqV, ver, a, call, true, ep.straddle[kk])
 	delete(ep.mustReorg, kk)
 	delete(ep.mustTrim, kk)
 	switch {
@@ -784,7 +785,7 @@ func (ep *episode) doBegin(run *hx.Run, id, k int, e uint64, idxs []uint64) stri
 	go func() { done <- ep.call(k, e, idxs) }()
 	select {
 	case hc := <-ep.n.arrived:
-		ep.pending[id] = &pendingCall{id: id, k: k, e: e, reqV: reqV, ver: ver, held: hc, done: done, nReorgs: len(ep.n.reorgs)}
+		ep.pending[id] = &pendingCall{id: id, k: k, e: e, reqV: reqV, ver: ver, held: hc, done: done, nReorgs: len(ep.n.reorgs), straddled: ep.straddle[kk]}
 		// a request begun after the invalidation that fetches everything clears the obligation
 		fresh := sameSet(hc.call.indices, reqV)
 		if ep.mustReorg[kk] && !fresh {
@@ -806,7 +807,7 @@ func (ep *episode) doBegin(run *hx.Run, id, k int, e uint64, idxs []uint64) stri
 		ep.n.mu.Lock()
 		ep.n.holdNext = false
 		ep.n.mu.Unlock()
-		ep.checkAnswer(run, "begin(hit)", k, e, reqV, ver, a, nil, true)
+		ep.checkAnswer(run, "begin(hit)", k, e, reqV, ver, a, nil, true, ep.straddle[kk])
 		run.Count("begin:hit")
 
 		return ep.render(k, a, nil)
@@ -824,7 +825,7 @@ func (ep *episode) doFinish(run *hx.Run, id int) string {
 	a := <-p.done
 	// the call was linearised when it began: compare with the node's answer at that version;
 	// the refetch obligations were evaluated at begin.
-	ep.checkAnswer(run, "finish", p.k, p.e, p.reqV, p.ver, a, &p.held.call, false)
+	ep.checkAnswer(run, "finish", p.k, p.e, p.reqV, p.ver, a, &p.held.call, false, p.straddled)
 	if p.ver != ep.n.verOf(p.e) {
 		// the response was produced before an invalidation of this epoch and stored after it
 		ep.straddle[kk] = true
